@@ -60,9 +60,9 @@ impl Part for C01 {
     }
     fn bound(&self, cfg: &Cfg) -> String {
         if cfg.tier.thorough() {
-            "36 suites x 4 modes x 6 info lengths x 5 psk shapes x (17x6 length grid + LEN_BIG) ; all 84 sequences of length <= 3 over a 4-shape alphabet per suite x mode; 5 fills rotating".into()
+            "36 suites x 4 modes x 6 info lengths x 5 psk shapes x (17x6 length grid + LEN_BIG) ; all 84 sequences of length <= 3 over a 4-shape alphabet per suite x mode; 5 fills rotating; long info/psk/psk_id (600..65537 bytes) for 12 suites x 4 modes".into()
         } else {
-            "36 suites x 4 modes x 2 info lengths x 1 psk shape x 17x3 length grid; the 84 short sequences for one (KEM,KDF) pair per AEAD x 4 modes; 2 fills rotating".into()
+            "36 suites x 4 modes x 2 info lengths x 1 psk shape x 17x3 length grid; the 84 short sequences for one (KEM,KDF) pair per AEAD x 4 modes; 2 fills rotating; long info/psk/psk_id (600..800 bytes) for 12 suites x 4 modes".into()
         }
     }
     fn enumerate(&self, cfg: &Cfg) -> Vec<Case> {
@@ -90,6 +90,21 @@ impl Part for C01 {
                 if mode.has_auth() && suite.kdf == suite.kem.kdf() {
                     tag += 1;
                     v.push(Case { suite, mode, info_len: 5, psk_len: if mode.has_psk() { 32 } else { 0 }, psk_id_len: if mode.has_psk() { 3 } else { 0 }, seq: Seq::Short(vec![(7, 2), (0, 0)]), fill: Fill::Mix, tag, self_addressed: true });
+                }
+                // long key-schedule strings (info / psk / psk_id far beyond any internal buffer size)
+                if suite.kdf == suite.kem.kdf() {
+                    let mut longs: Vec<(usize, usize, usize)> = vec![(600, 32, 5)];
+                    if mode.has_psk() {
+                        longs.extend_from_slice(&[(5, 700, 5), (5, 32, 800)]);
+                    }
+                    if t {
+                        longs.extend_from_slice(&[(65537, 32, 5), (4096, 4097, 4095)]);
+                    }
+                    for (il, pl, idl) in longs {
+                        tag += 1;
+                        let (pl, idl) = if mode.has_psk() { (pl, idl) } else { (0, 0) };
+                        v.push(Case { suite, mode, info_len: il, psk_len: pl, psk_id_len: idl, seq: Seq::Short(vec![(9, 3), (0, 0)]), fill: Fill::Mix, tag, self_addressed: false });
+                    }
                 }
                 // dense length sweep for one (KEM, KDF) pair per AEAD
                 if suite.kem == crate::refmodel::Kem::X25519 && suite.kdf == crate::refmodel::Kdf::Sha256 && (mode == Mode::Base || t) {
@@ -212,7 +227,7 @@ impl Part for C01 {
                     }
                 }
             };
-            for start in [(1u64 << 16) - 1, (1u64 << 32) - 2, (1u64 << 48) - 1, (1u64 << 56) - 1, u64::MAX - 2] {
+            for start in [(1u64 << 16) - 1, (1u64 << 32) - 2, (1u64 << 48) - 1, (1u64 << 56) - 1, u64::MAX - 2].into_iter().filter(|_| crate::suites::HOOKS) {
                 s2.set_seq(start);
                 r2.set_seq(start);
                 for j in 0..3u64 {
